@@ -9,6 +9,16 @@ COMMON_NOTE = ("Trusted: Coq 8.16.1 kernel and its VM (vm_compute; no native_com
                "(virtual clock, scheduler, canonicalisation, case printer). ")
 # id -> (text, note, technique, design_ref)
 CLAIMED = {
+ "C20": ("Theorem for any number of clients and every history of commands by any of them (reads, plain / conditional writes, set_many, increments, deletes, pattern deletes, "
+         "expirations, flushes), time advances with server-side expiry, and subscription drops with the 10 s reconnect, all pending invalidations delivered after every event: at "
+         "every quiescent point no message or recently-updated mark is left over and every listening client's local values and 'absent' markers equal what the server holds, "
+         "hence get / exists return the server's answer (invariant Q; the intermediate invariant P is carried through the invalidation loop message by message; per-command "
+         "frame lemmas on the server model of C19); a rejected conditional write reaches no local copy; a lost connection empties the local copy and stops local serving. "
+         "2-3 real BcastClientSide backends share the in-process server stand-in (CLIENT TRACKING BCAST redirect, one de-duplicated invalidation batch per server cycle); after "
+         "every event server keyspace, local copies with deadlines, live marks and started flags are dumped and compared with the model, and judged against the property's words.",
+         "Redis tracking semantics modelled from documentation; commands are issued at quiescent points only (the property's quantifier); the server stays reachable (C19 covers outages); "
+         "TTLs on a 1/8 s grid.",
+         "Coq proof (quiescent-point invariant by induction over all histories) + differential run of real client-side backends on an in-process server stand-in", "3/C20"),
  "C19": ("Theorems for every keyspace, instant and command: the backend's translation of each cache command into server commands (SET PX NX/XX, MGET, UNLINK, SCAN MATCH, PEXPIRE, "
          "TTL, INCRBY, the three Lua scripts transcribed, SADD+PEXPIRE pipeline, BITFIELD) and of the replies back has exactly the effect and result of a cache-level reference TTL "
          "map with Redis's policies, hence for every history; with the server unreachable and suppression on the keyspace is untouched, only ping raises and every other command "
